@@ -59,12 +59,53 @@ func TestIndexStability(t *testing.T) {
 		}
 		att := type3.NewRateLimitedAttester(&memCache{m: map[string]*type3.ClientState{}})
 		ids := map[string][]byte{} // client|origin -> id
+		// anonymous origin IDs: either one per (client, origin) or ONE per client reused for all its origins
+		// (the attester allows one anonymous origin ID to map to several issuer origin IDs, not the converse)
+		anonPerClient := rapid.Bool().Draw(t, "anonPerClient")
+		// interleaved: all requests are created and verified first, then evaluated and finalized in a drawn order
+		interleaved := rapid.Bool().Draw(t, "interleaved")
+		type pending struct {
+			ci          int
+			origin      string
+			st          type3.RateLimitedTokenRequestState
+			blind, anon []byte
+		}
+		var queue []pending
+		finish := func(p pending) bool {
+			clientKey := p.st.ClientKey()
+			_, blindedReqKey, err := iss.Evaluate(p.st.Request().Marshal())
+			if err != nil {
+				rt.Fail(t, "C08/evaluate", "issuer refused an honest request: %v", err)
+				return false
+			}
+			s.Eval()
+			idxKey := new(big.Int).SetBytes(indexKeyOf[p.origin])
+			if want := ref.BlindCompressed(p.st.Request().RequestKey, idxKey, ref.IssuerBlindCtx); !bytes.Equal(blindedReqKey, want) {
+				rt.Fail(t, "C08/blinded-request-key", "Evaluate's second result %x is not the request key blinded by the origin index key (%x)", blindedReqKey, want)
+				return false
+			}
+			id, err := att.FinalizeIndex(clientKey, p.blind, blindedReqKey, p.anon)
+			if err != nil {
+				rt.Fail(t, "C08/finalize-index", "FinalizeIndex failed on an honest run: %v", err)
+				return false
+			}
+			if want := ref.AnonymousIssuerOriginID(clientKey, idxKey); !bytes.Equal(id, want) {
+				rt.Fail(t, "C08/value", "anonymous issuer origin ID %x, reference HKDF value %x (client %x, origin %s, anonPerClient=%v interleaved=%v)", id, want, clientKey, p.origin, anonPerClient, interleaved)
+				return false
+			}
+			key := fmt.Sprintf("%d|%s", p.ci, p.origin)
+			if first, ok := ids[key]; ok && !bytes.Equal(first, id) {
+				rt.Fail(t, "C08/unstable", "ID changed between two requests of one client for one origin: %x vs %x", first, id)
+				return false
+			}
+			ids[key] = id
+			s.Nontrivial(clientKey, indexKeyOf[p.origin], p.blind)
+			return true
+		}
 		for ci, secret := range secrets {
 			client := type3.NewRateLimitedClientFromSecret(secret)
 			for oi, origin := range origins {
 				runs := rapid.IntRange(2, 4).Draw(t, "runs")
-				var first []byte
-				var clientKey []byte
 				for r := 0; r < runs; r++ {
 					blind := gen.P384KeyBytes().Draw(t, "blind")
 					chal, nonce := gen.Challenge().Draw(t, "challenge"), gen.Bytes32().Draw(t, "nonce")
@@ -72,45 +113,36 @@ func TestIndexStability(t *testing.T) {
 					if err != nil {
 						t.Fatalf("harness: %v", err)
 					}
-					clientKey = st.ClientKey()
-					anon := []byte(fmt.Sprintf("anon-origin-%d-%d", ci, oi)) // one anonymous origin ID per (client, origin)
+					anon := []byte(fmt.Sprintf("anon-origin-%d-%d", ci, oi))
 					if oi == 2 {
 						anon = []byte(fmt.Sprintf("anon-origin-%d-%d", ci, 0)) // shares the index with origin 0: must present the same anon ID
 					}
-					if err := att.VerifyRequest(*st.Request(), blind, clientKey, anon); err != nil {
+					if anonPerClient {
+						anon = []byte(fmt.Sprintf("anon-origin-of-client-%d", ci))
+					}
+					if err := att.VerifyRequest(*st.Request(), blind, st.ClientKey(), anon); err != nil {
 						rt.Fail(t, "C08/verify", "honest request rejected by the attester: %v", err)
 						return
 					}
-					_, blindedReqKey, err := iss.Evaluate(st.Request().Marshal())
-					if err != nil {
-						rt.Fail(t, "C08/evaluate", "issuer refused an honest request: %v", err)
+					p := pending{ci, origin, st, blind, anon}
+					if interleaved {
+						queue = append(queue, p)
+					} else if !finish(p) {
 						return
 					}
-					s.Eval()
-					idxKey := new(big.Int).SetBytes(indexKeyOf[origin])
-					if want := ref.BlindCompressed(st.Request().RequestKey, idxKey, ref.IssuerBlindCtx); !bytes.Equal(blindedReqKey, want) {
-						rt.Fail(t, "C08/blinded-request-key", "Evaluate's second result %x is not the request key blinded by the origin index key (%x)", blindedReqKey, want)
-						return
-					}
-					id, err := att.FinalizeIndex(clientKey, blind, blindedReqKey, anon)
-					if err != nil {
-						rt.Fail(t, "C08/finalize-index", "FinalizeIndex failed on an honest run: %v", err)
-						return
-					}
-					if want := ref.AnonymousIssuerOriginID(clientKey, idxKey); !bytes.Equal(id, want) {
-						rt.Fail(t, "C08/value", "anonymous issuer origin ID %x, reference HKDF value %x (client %x, origin %s)", id, want, clientKey, origin)
-						return
-					}
-					if first == nil {
-						first = id
-					} else if !bytes.Equal(first, id) {
-						rt.Fail(t, "C08/unstable", "ID changed between two requests of one client for one origin: %x vs %x", first, id)
-						return
-					}
-					s.Nontrivial(clientKey, indexKeyOf[origin], blind)
 				}
-				ids[fmt.Sprintf("%d|%s", ci, origin)] = first
 			}
+		}
+		if interleaved {
+			for _, i := range rapid.Permutation(seq(len(queue))).Draw(t, "finishOrder") {
+				if !finish(queue[i]) {
+					return
+				}
+			}
+			s.Class("interleaved")
+		}
+		if anonPerClient {
+			s.Class("anon-id-shared-across-origins")
 		}
 		for ci := range secrets {
 			if !bytes.Equal(ids[fmt.Sprintf("%d|%s", ci, origins[0])], ids[fmt.Sprintf("%d|%s", ci, origins[2])]) {
@@ -128,6 +160,16 @@ func TestIndexStability(t *testing.T) {
 				return
 			}
 		}
-		s.Sample(func() any { return map[string]any{"client_secret": rt.Hex(secrets[0]), "index_key": rt.Hex(idxA), "id": rt.Hex(ids["0|a.example"])} })
+		s.Sample(func() any {
+			return map[string]any{"client_secret": rt.Hex(secrets[0]), "index_key": rt.Hex(idxA), "id": rt.Hex(ids["0|a.example"])}
+		})
 	})
+}
+
+func seq(n int) []int {
+	out := make([]int, n)
+	for i := range out {
+		out[i] = i
+	}
+	return out
 }
